@@ -144,8 +144,13 @@ func liWorldGen(r *Run, rng *Rng, w *liWorld, steps int) {
 			if tip > lo && rng.Chance(30) {
 				b = tip // the most common reorg: exactly the last stored block
 			}
+			removes := len(w.survNums) > 0 && w.survNums[len(w.survNums)-1] >= b
 			w.exec(r, fmt.Sprintf("reorg %d", b))
 			r.Count("branch:reorg")
+			if halted && removes && w.p.IsHalted() {
+				// a node that only ever saw the blocks below b is not halted and serves data
+				r.Fail(fmt.Sprintf("[C04,C14] a reorg from block %d removed processed blocks (the store ended at %d) and the L1 info syncer is still halted: its queries keep failing where a node that never saw those blocks answers", b, tip), append([]string{"new"}, w.lines...))
+			}
 			if b <= tip {
 				r.Count("branch:reorg-removes")
 				tip = b - 1
